@@ -286,6 +286,9 @@ def pathlib_suffix_of_name(name):
 
 def pid_of(interp, x):
     """denotation of anything pathlib accepts as a path segment"""
+    from pyvc.values import SOpt, SChoice
+    if isinstance(x, (SOpt, SChoice)):      # (an optional path after its `is None` test)
+        x = interp.resolve(x)
     if isinstance(x, Opaque):
         return interp.getattr(x, 'pid')
     if isinstance(x, (str, SStr)):
